@@ -46,6 +46,10 @@ impl Arena {
     pub fn new_low(pages: usize) -> Arena {
         Self::new_flags(pages, libc::MAP_32BIT)
     }
+    /// A very large arena whose pages are only backed when touched.
+    pub fn new_sparse(pages: usize) -> Arena {
+        Self::new_flags(pages, libc::MAP_NORESERVE)
+    }
     fn new_flags(pages: usize, extra: libc::c_int) -> Arena {
         const G: usize = 16 * PAGE;
         let len = pages * PAGE;
